@@ -53,7 +53,7 @@ def bounded(pb, interp, rng, tier):
     N = 48
     xb = (g.standard_normal((N, 4, 2)) + 1j * g.standard_normal((N, 4, 2))).astype(np.complex64)
     xi = g.standard_normal((N, 4)).astype(np.float64)
-    DM = pb.DM(2.0)
+    DM = pb.DM(0.02)       # ~10 samples of smearing across the 4 MHz band at 400 MHz, 1 MHz sampling
 
     def mk(cls, x, **kw):
         return lambda data: cls(data, sample_rate=1 * u.MHz, start_time=t0, **kw)
@@ -76,7 +76,7 @@ def bounded(pb, interp, rng, tier):
         ("snippet.int", "signal", lambda z: pb.snippet(z, 4, 20)),
         ("concatenate", "baseband", lambda z: pb.concatenate([z[:10], z[10:30], z[30:]])),
         ("coherent_dedispersion", "baseband", lambda z: pb.coherent_dedispersion(z, DM)),
-        ("incoherent_dedispersion", "intensity", lambda z: pb.incoherent_dedispersion(z, pb.DM(3000.0))),
+        ("incoherent_dedispersion", "intensity", lambda z: pb.incoherent_dedispersion(z, pb.DM(0.03))),
         ("to_stokes", "dualpol", lambda z: z.to_stokes()),
         ("to_circular", "dualpol", lambda z: z.to_circular()),
         ("to_linear.roundtrip", "dualpol", lambda z: z.to_circular().to_linear()),
@@ -160,4 +160,43 @@ def bounded(pb, interp, rng, tier):
         ev += 1
         if not isinstance(c.data, np.ndarray) or _meta(c) != _meta(ref):
             fail(f"{name}.compute-container", "", type(c.data).__name__)
+    # ---- several lazily built results that differ only in a parameter, combined in ONE graph
+    # (task names must distinguish them: a collision silently substitutes one result for the other)
+    pairs = [
+        ("coherent_dedispersion(DM 1 vs 3)", "baseband", lambda z: pb.coherent_dedispersion(z, pb.DM(0.01)), lambda z: pb.coherent_dedispersion(z, pb.DM(0.03))),
+        ("coherent_dedispersion(ref_freq)", "baseband", lambda z: pb.coherent_dedispersion(z, DM, ref_freq=399 * u.MHz), lambda z: pb.coherent_dedispersion(z, DM, ref_freq=401 * u.MHz)),
+        ("time_shift(1.5 vs 2.5)", "baseband", lambda z: pb.time_shift(z, 1.5), lambda z: pb.time_shift(z, 2.5)),
+        ("freq_shift(0.1 vs 0.2 MHz)", "baseband", lambda z: pb.freq_shift(z, 0.1 * u.MHz), lambda z: pb.freq_shift(z, 0.2 * u.MHz)),
+        ("signal_transform(k=2 vs 3)", "intensity", lambda z: pb.signal_transform(lambda a, k=1: a * k)(z, k=2), lambda z: pb.signal_transform(lambda a, k=1: a * k)(z, k=3)),
+        ("snippet(3.5 vs 4.5)", "baseband", lambda z: pb.snippet(z, 3.5, 20), lambda z: pb.snippet(z, 4.5, 20)),
+    ]
+    for name, mk_name, opa, opb in pairs:
+        maker, x = makers[mk_name]
+        ev += 1
+        distinct.add(("pair", name))
+        try:
+            ra, rb = opa(maker(x)), opb(maker(x))
+            n = min(len(ra), len(rb))
+            want = np.asarray(ra.data)[:n] - np.asarray(rb.data)[:n]
+            zd = maker(da.from_array(x, chunks=(-1,) + (1,) * (x.ndim - 1)))
+            da_, db_ = opa(zd), opb(zd)
+            got = (da_.data[:n] - db_.data[:n]).compute(scheduler="synchronous")
+            scale = max(1e-30, float(np.max(np.abs(np.asarray(ra.data)), initial=0.0)))
+            if n == 0:
+                fail("combined-graph.empty", name, "harness: empty result")
+            if got.shape != want.shape or not (np.max(np.abs(got - want), initial=0.0) <= 4e-6 * scale):
+                fail("combined-graph.values", name, f"max abs diff {np.max(np.abs(got - want), initial=0.0):.2e}")
+        except Exception as e:
+            fail("combined-graph.raises", name, f"{type(e).__name__}: {str(e)[:150]}")
+    # the same function applied to differently shaped Dask signals one after the other (shared defaults must not leak)
+    ev += 1
+    try:
+        f = pb.signal_transform(lambda a: a + 1)
+        s1 = pb.Signal(da.from_array(np.zeros((32, 4)), chunks=(-1, 2)), sample_rate=1 * u.kHz)
+        s2 = pb.Signal(da.from_array(np.zeros((48, 6)), chunks=(-1, 3)), sample_rate=1 * u.kHz)
+        r1, r2 = f(s1), f(s2)
+        if r1.shape != (32, 4) or r2.shape != (48, 6) or np.asarray(r2.compute().data).shape != (48, 6):
+            fail("signal_transform.sequence-of-calls", "shapes (32,4) then (48,6)", f"{r1.shape}, {r2.shape}")
+    except Exception as e:
+        fail("signal_transform.sequence-of-calls.raises", "", f"{type(e).__name__}: {str(e)[:150]}")
     return {"evaluations": ev, "distinct_nontrivial": len(distinct), "failures": fails, "samples": samples}
